@@ -33,7 +33,7 @@ def cases(ctx):
         # mostly keys that already signed for other trees (the implementation side re-uses one object per secret)
         priv = rng.choice(pool[want_odd]) if rng.random() < 0.8 else priv_with_parity(rng, want_odd)
         pub = priv.get_public_key()
-        digest = G.rbytes(rng, 32) if rng.random() < 0.7 else bytes(rng.choice([1, 2])) + G.rbytes(rng, 30)
+        digest = G.rbytes(rng, 32) if rng.random() < 0.7 else bytes(2) + G.rbytes(rng, 30)
         for ht in ([rng.choice(TYPES)] if rng.random() < 0.8 else [0, rng.choice(TYPES[1:])]):
             for tweak in (1, 0):
                 prog, odd = pub.to_taproot_hex(TT.scripts_py(s))
@@ -49,6 +49,35 @@ def cases(ctx):
                     return (f's:bip340_verify {hx(digest)} {pk} {hx(sig[:64])}', 'ok 1')
                 yield Case(f'tr_sign {hx(priv.to_bytes())} {hx(pub.to_bytes())} {TT.scripts_line(s)} {hx(digest)} {ht} {tweak}', 'ms',
                            nontrivial=nt, tag='sign', spec=spec)
+    # all seven hash types on both paths, with one key
+    priv = pool[True][0]; pub = priv.get_public_key()
+    for ht in TYPES:
+        for tweak in (1, 0):
+            digest = G.rbytes(rng, 32)
+            prog, odd = pub.to_taproot_hex(None)
+            pk = prog if tweak else pub.to_x_only_hex()
+            def spec(ans, digest=digest, pk=pk, ht=ht):
+                if not ans.startswith('ok '): return ('s:echo sign-raised', 'ok 1')
+                sig = unhx(ans[3:])
+                if not (len(sig) == 64 if ht == 0 else (len(sig) == 65 and sig[-1] == ht)): return ('s:echo bad-length-or-hashtype-byte', 'ok 1')
+                return (f's:bip340_verify {hx(digest)} {pk} {hx(sig[:64])}', 'ok 1')
+            ctx.count(f'ht-{ht:02x}')
+            yield Case(f'tr_sign {hx(priv.to_bytes())} {hx(pub.to_bytes())} N {hx(digest)} {ht} {tweak}', 'ms', nontrivial=True, tag='sign-all-types', spec=spec)
+    # output keys whose x starts with a zero byte (searched over small secrets, no script tree)
+    from bitcoinutils.keys import PrivateKey
+    found = 0
+    for d in range(2, 3000):
+        if found >= ctx.n(2, 8): break
+        k = PrivateKey(secret_exponent=d); pb = k.get_public_key()
+        prog, odd = pb.to_taproot_hex(None)
+        if prog.startswith('00'):
+            found += 1; ctx.count('output-x-leading-zero')
+            digest = G.rbytes(rng, 32)
+            def spec(ans, digest=digest, prog=prog):
+                if not ans.startswith('ok '): return ('s:echo sign-raised', 'ok 1')
+                return (f's:bip340_verify {hx(digest)} {prog} {ans[3:131]}', 'ok 1')
+            yield Case(f'tr_sign {hx(k.to_bytes())} {hx(pb.to_bytes())} N {hx(digest)} 0 1', 'ms', nontrivial=True, tag='sign-leading-zero-x', spec=spec)
+            yield Case(f'tr_addr {hx(pb.to_bytes())} N', 'ms', nontrivial=True, tag='addr-leading-zero-x')
     # determinism: the same request twice (implementation against itself via the model's fixed answer)
     # full flow through sign_taproot_input on generated transactions
     for _ in range(ctx.n(16, 800)):
@@ -91,6 +120,11 @@ def impl(op, a, ctx):
         sig1 = priv._sign_taproot_input(digest, ht, TT.scripts_py(s), tweak)
         sig2 = priv._sign_taproot_input(digest, ht, TT.scripts_py(s), tweak)
         return 'ok ' + (sig1 if sig1 == sig2 else 'nondeterministic')
+    if op == 'tr_addr':
+        from bitcoinutils.keys import PublicKey
+        pub = PublicKey('04' + F.bytes().hex()); s = TT.parse_scripts(F); F.done()
+        prog, odd = pub.to_taproot_hex(TT.scripts_py(s))
+        return f'ok {prog} {1 if odd else 0}'
     if op == 'tr_sign_tx':
         priv = PrivateKey(b=F.bytes()); tree = TT.parse(F); tx = line_to_tx(F); i = F.nat()
         spks = [Script(s) for s in F.list(F.toks)]; amts = F.list(F.int); sp = F.bool(); leaf = F.toks(); ht = F.nat(); F.done()
